@@ -27,7 +27,7 @@ def describe(first, ev, run_ev):
     return key, f"grammar {json.dumps(first.get('vec', {}).get('g'))[:300]}"
 
 
-def ll_check(prop, tier, replay, do_gen, tv_sample, tv_every, rule, focus, evalw=False, lr=False):
+def ll_check(prop, tier, replay, do_gen, tv_sample, tv_every, rule, focus, evalw=False, lr=False, write=True):
     t0 = time.time()
     rep = Reporter(prop, tier)
     vec_path = os.path.join(OUT, f"{prop}_{tier}.vec.ndjson")
@@ -91,6 +91,8 @@ def ll_check(prop, tier, replay, do_gen, tv_sample, tv_every, rule, focus, evalw
            "rule": rule, "tags": summary["tags"], "spaces": space_cov, "focus": focus,
            "tv": {k: tvres[k] for k in ("events", "cases", "cases_accepted", "states")},
            "exhaustive": False, "known_findings_seen": rep.known, "tlc_wall_s": round(tot["wall"] + tvres["wall"], 1)}
+    if not write:
+        return rc, cov, len(rep.violations)
     write_evidence(prop, tier, "model_checking", cov, time.time() - t0, len(rep.violations),
                    ["the generated source is turned into run-time tables by harness/src/dynrt.rs (syn + scnr2_generate) instead of rustc; "
                     "C21/C22 cover that step", "token strings are rendered with single blanks (decorated variants add comments/newlines)"])
